@@ -335,6 +335,7 @@ type c10Tracer struct {
 	depth   int
 	crt     []bool
 	topCrt  bool
+	deadline time.Time // KVM.Cancel is only polled every 1000 steps of ONE frame: call-heavy runs never see it
 	reqGas  *big.Int // gas argument of the CALL-family opcode being executed
 	reqVal  bool     // ... which transfers value (callee also gets the stipend)
 }
@@ -374,6 +375,9 @@ func (t *c10Tracer) CaptureStart(env *KVM, from common.Address, to common.Addres
 }
 func (t *c10Tracer) CaptureState(pc uint64, op OpCode, gas, cost uint64, scope *ScopeContext, rData []byte, depth int, err error) {
 	t.res.steps++
+	if t.res.steps&4095 == 0 && !t.deadline.IsZero() && time.Now().After(t.deadline) {
+		panic(c10HangSentinel)
+	}
 	t.res.ops[byte(op)]++
 	if depth > t.res.maxDepth {
 		t.res.maxDepth = depth
@@ -520,13 +524,19 @@ func c10RunKVM(c *c10Case, withTracer bool, cands map[common.Address]bool, keys 
 	vm := NewKVM(ctx, TxContext{Origin: c.origin, GasPrice: c.gasprice}, sdb, c10ChainConfig(c.v2), cfg)
 	c10CurV2 = c.v2
 	// wall-clock guard only (the machine may be heavily loaded); the hang oracle itself uses CPU time
-	timer := time.AfterFunc(30*time.Second, func() { res.timeout = true; vm.Cancel() })
+	timer := time.AfterFunc(10*time.Second, func() { res.timeout = true; vm.Cancel() })
 	func() {
 		defer func() {
 			if r := recover(); r != nil {
+				if r == c10HangSentinel {
+					res.timeout = true
+					res.class = "HANG"
+					return
+				}
 				res.panic = fmt.Sprint(r)
 			}
 		}()
+		tr.deadline = time.Now().Add(10 * time.Second)
 		var err error
 		if c.create {
 			res.ret, _, res.gasLeft, err = vm.Create(AccountRef(c.origin), c.input, c.gas, c.value)
@@ -538,6 +548,9 @@ func c10RunKVM(c *c10Case, withTracer bool, cands map[common.Address]bool, keys 
 	timer.Stop()
 	if res.panic != "" {
 		res.class = "PANIC"
+		return res, tr.cands, tr.keys
+	}
+	if res.class == "HANG" {
 		return res, tr.cands, tr.keys
 	}
 	if c.create {
@@ -589,6 +602,8 @@ func c10RunKVM(c *c10Case, withTracer bool, cands map[common.Address]bool, keys 
 }
 
 var c10CurV2 bool
+
+const c10HangSentinel = "verif-c10: wall-clock budget of one program exhausted"
 
 // ---- geth arbiter
 
@@ -714,7 +729,7 @@ func c10RunGeth(c *c10Case, cands map[common.Address]bool, keys map[common.Addre
 		BlockNumber: new(big.Int).SetUint64(c.number), Time: new(big.Int).SetUint64(c.time), Difficulty: big.NewInt(1),
 	}
 	evm := gvm.NewEVM(ctx, sdb, c10GethConfig(), gvm.Config{Debug: true, Tracer: tr})
-	timer := time.AfterFunc(60*time.Second, func() { res.timeout = true; evm.Cancel() })
+	timer := time.AfterFunc(20*time.Second, func() { res.timeout = true; evm.Cancel() })
 	func() {
 		defer func() {
 			if r := recover(); r != nil {
@@ -1880,6 +1895,7 @@ func TestVerifC10(t *testing.T) {
 		"oracles: no panic, < 2 s of CPU per program, same result with and without tracer, agreement with go-ethereum v1.9.15 core/vm (Istanbul) on class/return data/state/logs whenever no frame ran out of gas and no fork-specific opcode (GAS value, DIFFICULTY, CHAINID pre-Galaxias, precompiles' gas) was observed"
 	root := c10NewRand(*c10Seed)
 	opsCovered := map[byte]int{}
+	hangs := 0
 	for i := 0; i < *c10N; i++ {
 		if *c10Only >= 0 && *c10Only != i {
 			continue
@@ -1916,6 +1932,20 @@ func TestVerifC10(t *testing.T) {
 		}
 		if res.gasLeft > c.gas {
 			o.Fail(0, "kvm-gas-increase", fmt.Sprintf("gas %d -> %d", c.gas, res.gasLeft))
+		}
+		if res.timeout {
+			// already reported as kvm-hang: no second run, no arbiter run; stop early once the evidence is ample
+			hangs++
+			for _, l := range in {
+				fmt.Fprintln(o.In, l)
+			}
+			fmt.Fprintln(o.In, "SKIP hang")
+			fmt.Fprintf(o.Impl, "CASE %d\nSKIP hang\n", i)
+			o.Ops++
+			if hangs >= 5 {
+				break
+			}
+			continue
 		}
 		res2, _, _ := c10RunKVM(c, false, cands, keys)
 		l1, l2 := strings.Join(c10ObsLines(res, true), "\n"), strings.Join(c10ObsLines(res2, true), "\n")
